@@ -41,7 +41,8 @@ CLI_EVERY = 12
 
 def streams(ctx):
     return [("modules", ctx.scale(160, 3000)), ("hand", len(HAND)), ("header_comments", ctx.scale(24, 300)),
-            ("big_modules", ctx.scale(8, 100)), ("prose_types", ctx.scale(24, 300))]
+            ("big_modules", ctx.scale(8, 100)), ("prose_types", ctx.scale(24, 300)),
+            ("quote_prose", ctx.scale(32, 400))]
 
 
 HAND = [
@@ -169,6 +170,9 @@ def run_case(ctx, P, stream, idx):
         # probe: comments on / right after definition headers (`def f():  # why`): bound to one recorded finding
         with progen.header_comments(0.4):
             src = progen.gen_module(r, n_items=r.randint(1, 2), prelude=False)
+    elif stream == "quote_prose":
+        with progen.quote_prose(0.7):  # docstrings whose prose mentions quote characters / the other triple quote
+            src = progen.gen_module(r, n_items=r.randint(1, 3), prelude=False)
     elif stream == "prose_types":
         src = progen.gen_prose_typed_module(r)  # documented types that are prose, not expressions
     elif stream == "big_modules":
